@@ -7,7 +7,8 @@ Plans1 == {<<>>, << <<>> >>, << <<1>> >>, << <<1, 2>> >>, << <<1, 2, 3>> >>}
 Plans2 == {<< <<1>>, <<2>> >>, << <<1, 2>>, <<3>> >>, << <<1>>, <<2, 3>> >>, << <<>>, <<1>> >>, << <<1, 2>>, <<>> >>,
            << <<1, 2>>, <<3, 4>> >>}
 Plans3 == {<< <<1>>, <<2>>, <<3>> >>, << <<1, 2>>, <<>>, <<3>> >>}
-PlansE == Plans1 \cup {<< <<1>>, <<2>> >>, << <<1, 2>>, <<3>> >>, << <<>>, <<1>> >>, << <<1>>, <<2, 3>> >>, << <<1>>, <<2>>, <<3>> >>}
+PlansE == Plans1 \cup {<< <<1>>, <<2>> >>, << <<1, 2>>, <<3>> >>, << <<>>, <<1>> >>, << <<1>>, <<>>, <<2>> >>}
+PlansT == Plans1 \cup {<< <<1>>, <<2>> >>, << <<1, 2>>, <<3>> >>, << <<>>, <<1>> >>, << <<1>>, <<2, 3>> >>, << <<1>>, <<2>>, <<3>> >>}
 PlansAll == Plans1 \cup Plans2 \cup Plans3
 
 AllWraps == {"default", "decorate", "identity"}
